@@ -463,12 +463,24 @@ def numpy_call(it, fn, d, e, env, argv, kw, args):
         import math
         r.lconst = None if (a0.mconst is None or a0.mconst <= 0) else math.log(a0.mconst)
         return r
-    if fn == "sqrt":
-        return it.power(a0, wild((), 0.5), a0.sh if a0 is not None and a0.is_numlike else None, e) if a0 is not None and a0.is_numlike else unk()
-    if fn in ("power", "float_power"):
-        return it.power(a0, argv[1], bshape(a0.sh, argv[1].sh, e)[0] if a0.is_numlike and argv[1].is_numlike else None, e) if len(argv) >= 2 and a0.is_numlike else unk()
-    if fn == "square":
-        return it.power(a0, wild((), 2.0), a0.sh, e) if a0 is not None and a0.is_numlike else unk()
+    if fn in ("sqrt", "power", "float_power", "square"):
+        if a0 is None or not a0.is_numlike:
+            return unk()
+        if fn == "sqrt":
+            r_ = it.power(a0, wild((), 0.5), a0.sh, e)
+        elif fn == "square":
+            r_ = it.power(a0, wild((), 2.0), a0.sh, e)
+        else:
+            if len(argv) < 2:
+                return unk()
+            r_ = it.power(a0, argv[1], bshape(a0.sh, argv[1].sh, e)[0] if argv[1].is_numlike else None, e)
+        # translation weight: a power of something that moves with the offset is not a shift-structured quantity
+        from .dim import _sw as _swf
+        w_ = _swf(a0)
+        if r_ is not None and r_.is_numlike and w_ is not None:
+            r_ = r_.copy()
+            r_.sw = 0 if w_ == 0 else "N"
+        return r_
     if fn in ("multiply", "divide", "true_divide", "add", "subtract", "matmul", "dot"):
         if len(argv) < 2:
             return unk()
